@@ -24,14 +24,18 @@ Families == {"fmt_container", "fmt_enum", "debug_field", "from_variant", "from_s
              "into_struct", "into_field", "legacy_field", "legacy_forms", "error_field", "ignored_variant_field",
              \* field attributes of Debug under a struct-level / variant-level `#[debug("...")]`: a field format is
              \* forbidden there, everything else is judged as on any field
-             "debug_field_cfmt", "debug_field_vfmt"}
-FmtForbidden == {"debug_field_cfmt", "debug_field_vfmt"}
+             "debug_field_cfmt", "debug_field_vfmt",
+             \* derive(Debug) on an ENUM declaration (with no variant at all, with variants): a format is rejected there
+             \* ("an enum-level format attribute on Debug is rejected"), bound(...) is fine
+             "debug_enum0", "debug_enum1"}
+FmtForbidden == {"debug_field_cfmt", "debug_field_vfmt", "debug_enum0", "debug_enum1"}
 
 Atoms(f) ==
     CASE f = "fmt_container" -> {"lit", "lit_comma", "lit_b", "bound_T", "bounds_T", "bound_U", "bound_TU", "legacy_fmt", "legacy_bound", "unknown"}
-      [] f = "fmt_enum"      -> {"lit", "lit_wrap", "rename_snake", "rename_snake2", "rename_kebab", "rename_bad", "unknown"}
+      [] f = "fmt_enum"      -> {"lit", "lit_wrap", "rename_snake", "rename_snake2", "rename_kebab", "rename_bad", "unknown", "bound_u8"}
       [] f = "debug_field"   -> {"skip", "ignore", "lit", "lit_comma", "unknown"}
-      [] f \in FmtForbidden  -> {"skip", "ignore", "lit", "unknown", "legacy_fmt"}
+      [] f \in {"debug_field_cfmt", "debug_field_vfmt"} -> {"skip", "ignore", "lit", "unknown", "legacy_fmt"}
+      [] f \in {"debug_enum0", "debug_enum1"} -> {"lit", "lit_b", "bound_u8", "unknown"}
       [] f = "from_variant"  -> {"from", "skip", "ignore", "forward", "ty_a", "ty_b", "ty_ab", "ty_ab_comma", "legacy_types"}
       [] f = "from_struct"   -> {"forward", "ty_a", "ty_b", "ty_ab", "ty_ab_comma", "legacy_types", "variant_only_from"}
       [] f = "asref_struct"  -> {"forward", "ty_a", "ty_b", "ty_ab", "ty_ab_comma"}
@@ -64,7 +68,7 @@ Corrupt(f, a) == a \in {"legacy_fmt", "legacy_bound", "unknown", "legacy_types",
 
 Kind(f, a) ==
     CASE a \in {"lit", "lit_comma", "lit_b", "lit_wrap"} -> "fmt"
-      [] a \in {"bound_T", "bounds_T", "bound_U", "bound_TU"} -> "bound"
+      [] a \in {"bound_T", "bounds_T", "bound_U", "bound_TU", "bound_u8"} -> "bound"
       [] a \in {"rename_snake", "rename_snake2", "rename_kebab"} -> "rename"
       [] a \in {"skip", "ignore"} -> (IF f \in {"legacy_field", "error_field"} THEN "legacy" ELSE "skip")
       [] a \in {"from", "bare"} -> "empty"       \* `#[into]` / `#[from]` / `#[as_ref]` without arguments
@@ -79,6 +83,7 @@ Contrib(f, a) ==
     \* (`("x",)`: a comma right after the literal, as format_args! allows, is the literal alone)
     CASE a \in {"lit", "lit_comma"} -> {"fmt:a"} [] a = "lit_b" -> {"fmt:b"} [] a = "lit_wrap" -> {"fmt:wrap"}
       [] a \in {"bound_T", "bounds_T"} -> {"bound:T"} [] a = "bound_U" -> {"bound:U"} [] a = "bound_TU" -> {"bound:T", "bound:U"}
+      [] a = "bound_u8" -> {"bound:u8"}
       [] a \in {"rename_snake", "rename_snake2"} -> {"rename:snake"} [] a = "rename_kebab" -> {"rename:kebab"}
       [] a \in {"skip", "ignore"} -> {"skip"}
       [] a \in {"from", "bare"} -> (IF f = "into_struct" THEN {"owned:self"} ELSE {"empty"})
@@ -95,7 +100,7 @@ Contrib(f, a) ==
 
 SingleKind(f) == f \in FmtForbidden \/ f \in {"debug_field", "from_variant", "from_struct", "asref_struct", "asref_field", "into_field", "into_struct"}
 Repeatable(f) == CASE f \in {"fmt_container"} -> {"bound"}
-                   [] f = "fmt_enum" -> {}
+                   [] f \in {"fmt_enum", "debug_enum0", "debug_enum1"} -> {"bound"}
                    [] f \in {"from_variant", "from_struct", "asref_struct", "asref_field"} -> {"types"}
                    [] f = "into_struct" -> {"conv"}
                    [] OTHER -> {}
